@@ -55,6 +55,12 @@ void irsym_log_clear(long run);
 #ifndef DATAT
 #define DATAT REALT
 #endif
+#ifndef CONTT
+#define CONTT REALT    // element type of the particle container handed to the constructor (may differ from RealType and DataType)
+#endif
+#ifndef LCELLN
+#define LCELLN 1       // number of words of a local expansion (a size different from the multipole's exposes size mix-ups)
+#endif
 #ifndef NEXTRA
 #define NEXTRA 0         // extra data values per particle besides the DIM coordinates
 #endif
@@ -82,9 +88,10 @@ using Idx = TbfMortonSpaceIndex<DIM, Cfg, true>;
 using Idx = TbfHilbertSpaceIndex<DIM, Cfg, false>;
 #endif
 using MCell = std::array<U, 1>;
-using LCell = std::array<U, 1>;
+using LCell = std::array<U, LCELLN>;
 using Tree = TbfTree<Real, DataT, NData, U, NRHS, MCell, LCell, Idx>;
-using PosArray = std::array<std::array<Real, NData>, NPART>;
+using ContT = CONTT;
+using PosArray = std::array<std::array<ContT, NData>, NPART>;
 
 constexpr long Side = 1L << (HEIGHT - 1);     // cells per dimension at the leaf level
 constexpr long MaxCells = 4096;
@@ -117,6 +124,10 @@ static long chooseK(){
     return irsym_choose(2 * Side + 1);
 #elif POSMODE == 1
     return 2 * irsym_choose(Side) + 1;
+#elif POSMODE == 3
+    const long c = irsym_choose(4);      // deep sparse trees: first, second, last-but-one or last leaf of the axis (cell centres)
+    const long leaf = c == 0 ? 0 : c == 1 ? (Side > 1 ? 1 : 0) : c == 2 ? (Side > 1 ? Side - 2 : 0) : Side - 1;
+    return 2 * leaf + 1;
 #else
     const long leaf = irsym_choose(Side);
     const long v = irsym_choose(leaf == Side - 1 ? 3 : 2);      // lower face, centre, (closed upper face of the box)
@@ -132,17 +143,17 @@ static void choosePositions(const Cfg& cfg, bool symmetric, bool symbolicPayload
         for(int d = 0; d < DIM; ++d) gP.k[p][d] = chooseK();
         if(symmetric && p > 0) irsym_assume(keyOf(gP.k[p - 1]) <= keyOf(gP.k[p]));
         for(int d = 0; d < DIM; ++d){
-            gP.pos[p][d] = cfg.getBoxCorner()[d] + Real(gP.k[p][d]) * (cfg.getLeafWidths()[d] / Real(2));
+            gP.pos[p][d] = ContT(cfg.getBoxCorner()[d] + Real(gP.k[p][d]) * (cfg.getLeafWidths()[d] / Real(2)));
             irsym_note(100 * (p + 1) + d, gP.k[p][d]);
         }
         gP.w[p] = symbolicPayload ? irsym_symbolic_u64() : U(p + 1);
         for(int e = 0; e < NEXTRA; ++e){
 #if defined(SYMBOLIC_EXTRA)
             gP.extra[p][e] = irsym_symbolic_u64();
-            static_assert(sizeof(Real) == 8, "symbolic extra values need 64-bit data");
-            std::memcpy(&gP.pos[p][DIM + e], &gP.extra[p][e], sizeof(Real));
+            static_assert(sizeof(ContT) == 8, "symbolic extra values need 64-bit container elements");
+            std::memcpy(&gP.pos[p][DIM + e], &gP.extra[p][e], sizeof(ContT));
 #else
-            gP.pos[p][DIM + e] = Real(1000 * (p + 1) + e) + Real(0.25);
+            gP.pos[p][DIM + e] = ContT(16777217.0 * (p + 1) + e) + ContT(0.25);      // not representable in float: a detour through a narrower type shows
 #endif
         }
     }
